@@ -164,8 +164,8 @@ def gen_cases(ctx):
     rng = ctx.rng
     nprng = ctx.np_rng(0)
     cases = []
-    n_clouds = ctx.n(110, 1400)
-    n_all = ctx.n(6, 60)       # clouds run through every divisor
+    n_clouds = ctx.n(220, 2600)
+    n_all = ctx.n(8, 80)       # clouds run through every divisor
     for ci in range(n_clouds):
         r = rng.random()
         n = 50 if r < 0.1 else (rng.randrange(50, 200) if r < 0.75 else rng.randrange(200, ctx.n(900, 4000)))
@@ -260,6 +260,8 @@ def oracle(c, r=None):
     else:
         if smp.shape != np.asarray(c["sample"]).shape or not np.array_equal(smp, np.asarray(c["sample"], dtype=float)):
             return ({"class": cls, "clause": "sample-size"}, "the supplied sample is not the one stored on the contour")
+    if not np.all(np.isfinite(smp)):
+        return None      # the property is about finite samples
     x, y = smp[:, 0], smp[:, 1]
     V = r["coords"]
     N = n_directions(deg_step)
@@ -310,11 +312,19 @@ def shrink(c, sig):
     def fails(rows):
         if len(rows) < 50:
             return False
-        o = oracle(dict(base, sample=np.array(rows, dtype=float)))
+        o = oracle(dict(base, sample=np.array(rows, dtype=float)))  # base is rebound below: late binding intended
         return o is not None and o[0].get("clause") == sig.get("clause") and o[0].get("vertex") == sig.get("vertex")
     if not c["supplied"]:
         return c
     rows = [list(map(float, p)) for p in c["sample"]]
+    # simpler parameters first (same signature class), then fewer points
+    for key, cands in (("alpha", [0.1, 0.05]), ("deg_step", [10, 5, 6])):
+        for v in cands:
+            trial = dict(base, **{key: v})
+            o = oracle(dict(trial, sample=np.array(rows, dtype=float)))
+            if o is not None and o[0] == sig:
+                base = trial
+                break
     rows = vlib.shrink_list(rows[:400], fails, min_len=50) if fails(rows[:400]) else rows
     # round the numbers when the failure survives it
     rr = [[round(a, 2), round(b, 2)] for a, b in rows]
@@ -334,6 +344,41 @@ def replay(ctx, d):
     if o:
         print("  ", o[1])
     return o is not None
+
+
+def seastate_model(rng=None):
+    """a fitted two-variable virocon model (Weibull Hs, log-normal Tz conditional on Hs; Vanem & Bitner-Gregersen 2012,
+    the model of virocon's own contour tests), parameters varied a little when rng is given"""
+    from virocon import GlobalHierarchicalModel, WeibullDistribution, LogNormalDistribution, DependenceFunction
+    j = (lambda v, s=0.1: v * (1 + s * (rng.random() - 0.5))) if rng is not None else (lambda v, s=0.1: v)
+    a1, b1, c1 = j(0.1), j(1.489), j(0.1901)
+    a2, b2, c2 = j(0.04), j(0.1748), j(-0.2243)
+
+    def _power3(x, a=a1, b=b1, c=c1):
+        return a + b * x ** c
+
+    def _exp3(x, a=a2, b=b2, c=c2):
+        return a + b * np.exp(c * x)
+
+    bounds = [(0, None), (0, None), (None, None)]
+    d0 = {"distribution": WeibullDistribution(alpha=j(2.776), beta=j(1.471), gamma=j(0.8888))}
+    d1 = {"distribution": LogNormalDistribution(), "conditional_on": 0,
+          "parameters": {"mu": DependenceFunction(_power3, bounds), "sigma": DependenceFunction(_exp3, bounds)}}
+    return GlobalHierarchicalModel([d0, d1])
+
+
+def real_model_cases(ctx):
+    """contours of a real virocon model, the sample drawn by the model itself (oracle only: the draw is not replayed in Coq)"""
+    out = []
+    for k in range(ctx.n(3, 12)):
+        real = seastate_model(ctx.rng if k else None)
+        seed = ctx.rng.randrange(2 ** 31)
+        alpha = ctx.rng.choice([0.2, 0.1, 0.05, 0.02])
+        c = {"cloud": 200000 + k, "kind": "virocon-model", "alpha": alpha, "deg_step": ctx.rng.choice([5, 6, 10, 15, 45]), "supplied": False, "n": None}
+        r = run_impl(None, alpha, c["deg_step"], supplied=False, gen=lambda n, real=real, seed=seed: real.draw_sample(n, random_state=seed))
+        c["sample"] = r["sample_attr"] if "err" not in r else np.zeros((50, 2))
+        out.append((c, r))
+    return out
 
 
 # ------------------------------------------------------------------ run
@@ -408,10 +453,16 @@ def run(ctx):
     found = 0
     seen_sig = set()
     order = suspects + [i for i in range(len(cases)) if i not in set(suspects)]
-    for idx in order:
+    stream = [(cases[i], results[i]) for i in order]
+    try:
+        extra = real_model_cases(ctx)
+        stream += extra
+        ctx.cov["evaluations"] += len(extra)
+    except Exception as e:  # noqa
+        ctx.notes["real_model_cases_error"] = repr(e)[:300]
+    for c, r in stream:
         if found >= 8:
             break
-        c, r = cases[idx], results[idx]
         o = oracle(c, r)
         if o is None:
             continue
@@ -421,7 +472,7 @@ def run(ctx):
             continue
         seen_sig.add(key)
         small = shrink(c, sig)
-        o2 = oracle(small) or o
+        o2 = (oracle(small) if small is not c else None) or o
         if ctx.violation(o2[0], o2[1], to_replay(small)):
             found += 1
     ctx.cov["rule"] = ("point clouds (bivariate normal, sea-state like Weibull/log-normal, rounded values with ties, integer lattices, Cauchy/Pareto tails, "
